@@ -472,7 +472,7 @@ var requiredCoverage = []string{
 	"extcomm mup sub-type: 0", "extcomm mup sub-type: 1", "extcomm mup sub-type: 2", "extcomm mup sub-type: 3", "extcomm mup sub-type: 4", "extcomm mup sub-type: 5",
 	"extcomm: *bgp.VPLSExtended", "extcomm: *bgp.UnknownExtended",
 	"ip6 extcomm: *bgp.IPv6AddressSpecificExtended", "ip6 extcomm: *bgp.RedirectIPv6AddressSpecificExtended", "ip6 extcomm: *bgp.UnknownIP6Extended",
-	"attr extended-communities count: 0", "attr extended-communities count: 6",
+	"attr extended-communities count: 1", "attr extended-communities count: 6",
 	// NLRI
 	"nlri l2vpn-vpls: *bgp.VPLSNLRI", "nlri l2vpn-evpn: *bgp.EVPNNLRI", "nlri rtc: *bgp.RouteTargetMembershipNLRI",
 	"nlri ipv4-encap: *bgp.EncapNLRI", "nlri ipv6-encap: *bgp.EncapNLRI",
@@ -711,15 +711,10 @@ func firstProblem(cat string, r []uint32) string {
 // failure found for the shortest recipe is logged as the reproducer.
 func TestExoticKnownIssues(t *testing.T) {
 	category := func(key string) string {
-		switch {
-		case strings.HasPrefix(key, "ec-"):
+		if strings.HasPrefix(key, "ec-") {
 			return "ec"
-		case key == "encap-nlri-multi":
-			return "pair"
-		case key == "rd-unknown-type", key == "evpn-ipmsi", key == "flowspec-len-ge-240", key == "ls-prefix-len0":
-			return "nlri"
 		}
-		return "attr"
+		return "attr" // add "nlri" / "pair" (see firstProblem) when a key about an NLRI is added
 	}
 	if !AvoidKnownIssues {
 		t.Skip("AvoidKnownIssues is off")
